@@ -25,12 +25,13 @@ import (
 type ev struct {
 	Miner int    `json:"miner"` // index of the sending miner; -1 = a registered node outside the magic block
 	Kind  string `json:"kind"`  // valid | othermsg | otherkey | garbage | zero | sum
-	TC    int    `json:"tc"`    // RoundTimeoutCount field of the share
+	TC    int    `json:"tc"`    // RoundTimeoutCount field of the share minus the round's current timeout count
 }
 
 type view struct {
-	Self int  `json:"self"`
-	Evs  []ev `json:"evs"`
+	Self int    `json:"self"`
+	Evs  []ev   `json:"evs"`            // shares arriving before any restart
+	More [][]ev `json:"more,omitempty"` // per later phase: Round.Restart + IncrementTimeoutCount, then these shares
 }
 
 type scen struct {
@@ -48,7 +49,6 @@ type outcome struct {
 	descs map[string]string
 	hist  map[string]int
 	coq   []string
-	seeds []int64
 }
 
 func (o *outcome) fail(kind, desc string) {
@@ -152,6 +152,7 @@ func run1(s scen) *outcome {
 		seenID[d] = true
 	}
 	var refMsg string
+	seedByMsg := map[string]int64{}
 	for vi, vw := range s.Views {
 		v := w.NewView(vw.Self, true, 66)
 		rn := s.Round
@@ -165,165 +166,178 @@ func run1(s scen) *outcome {
 		if s.Timeout > 0 {
 			mr.SetTimeoutCount(s.Timeout)
 		}
-		msg, err := v.MC.GetBlsMessageForRound(mr.Round)
-		if err != nil {
-			o.hist["no-message"]++
-			v.Close()
-			continue
-		}
-		if vi == 0 {
-			refMsg = msg
-		} else if msg != refMsg {
-			o.fail("message-differs-between-views", fmt.Sprintf("%q vs %q", refMsg, msg))
-		}
-		otherMsg := fmt.Sprintf("%v%v%v", rn+1, s.Timeout, strconv.FormatInt(s.PrevSeed, 16))
-		// the view's own share through the real GetBlsShare
-		own, err := v.MC.GetBlsShare(context.Background(), mr.Round)
-		if err != nil || own != w.DKGs[vw.Self].Sign(msg).GetHexString() {
-			o.fail("own-share-not-dkg-signature", fmt.Sprintf("GetBlsShare of miner %d: %v", vw.Self, err))
-		}
-		gsig := w.GSK.Sign(msg)
-		expSeed := seedOf(gsig.GetHexString())
-
-		validSeen := map[int]bool{} // miners whose valid share (right tc) has arrived
-		var coqEvs, coqOks []string
-		var accOrder []int
-		for ei, e := range vw.Evs {
-			var party *node.Node
-			var signer int
-			if e.Miner >= 0 {
-				party = w.Miners[e.Miner].Node
-				signer = e.Miner
-			} else {
-				party = stranger(s.WorldSeed).Node
-				signer = 0
-			}
-			var share string
-			dlog := "None"
-			isValid := false
-			switch e.Kind {
-			case "valid":
-				share = w.DKGs[signer].Sign(msg).GetHexString()
-				dlog = "(Some " + zx(w.DKGs[signer].Si.GetHexString()) + ")"
-				isValid = e.Miner >= 0
-			case "othermsg":
-				share = w.DKGs[signer].Sign(otherMsg).GetHexString()
-			case "otherkey":
-				o2 := (signer + 1) % s.N
-				share = w.DKGs[o2].Sign(msg).GetHexString()
-				dlog = "(Some " + zx(w.DKGs[o2].Si.GetHexString()) + ")"
-				isValid = e.Miner >= 0 && w.DKGs[o2].Si.IsEqual(&w.DKGs[signer].Si)
-			case "garbage":
-				share = "zz not hex"
-			case "zero":
-				share = "0"
-				dlog = "(Some 0x0)"
-			case "sum":
-				o2 := (signer + 1) % s.N
-				sg := w.DKGs[signer].Sign(msg)
-				sg.Add(w.DKGs[o2].Sign(msg))
-				share = sg.GetHexString()
-				var k bls.Key
-				k = w.DKGs[signer].Si
-				k.Add(&w.DKGs[o2].Si)
-				dlog = "(Some " + zx(k.GetHexString()) + ")"
-				isValid = false
-			}
-			vrfs := &round.VRFShare{Round: rn, Share: share, RoundTimeoutCount: e.TC}
-			vrfs.SetParty(party)
-			before := len(mr.GetVRFShares())
-			ok := v.MC.AddVRFShare(context.Background(), mr, vrfs)
-			o.hist[fmt.Sprintf("add-%s-%v", e.Kind, ok)]++
-			tcOK := e.TC == s.Timeout
-			if isValid && tcOK && e.Miner >= 0 {
-				validSeen[e.Miner] = true
-			}
-			if ok {
-				accOrder = append(accOrder, e.Miner)
-				if !isValid || !tcOK {
-					o.fail("invalid-share-counted", fmt.Sprintf("view %d event %d (%+v) was admitted", vi, ei, e))
+		phases := append([][]ev{vw.Evs}, vw.More...)
+		for pi, evs := range phases {
+			if pi > 0 {
+				// what restartRound does when the round times out: drop the collected shares, move to the
+				// next timeout count (the message changes), then shares are sent again
+				if err := mr.Restart(); err != nil {
+					o.hist["restart-refused"]++
+					break
 				}
+				mr.IncrementTimeoutCount(s.PrevSeed, v.C.GetMiners(rn))
+				o.hist["restart"]++
 			}
-			// state oracle after every step
-			shares := mr.GetVRFShares()
-			if len(shares) > s.T {
-				o.hist["more-than-t-shares"]++ // not part of the property; the model comparison reports it
+			curTC := mr.GetTimeoutCount()
+			msg, err := v.MC.GetBlsMessageForRound(mr.Round)
+			if err != nil {
+				o.hist["no-message"]++
+				break
 			}
-			if ok != (len(shares) == before+1) {
-				o.fail("add-result-inconsistent", fmt.Sprintf("view %d event %d: result %v, shares %d -> %d", vi, ei, ok, before, len(shares)))
+			if pi > 0 {
+				// nothing to compare: the timeout count after a restart depends on the votes seen
+			} else if vi == 0 {
+				refMsg = msg
+			} else if msg != refMsg {
+				o.fail("message-differs-between-views", fmt.Sprintf("%q vs %q", refMsg, msg))
 			}
-			for key, sh := range shares {
-				idx := -1
-				for i, m := range w.Miners {
-					if m.ID == key {
-						idx = i
+			otherMsg := fmt.Sprintf("%v%v%v", rn+1, curTC, strconv.FormatInt(s.PrevSeed, 16))
+			// the view's own share through the real GetBlsShare
+			own, err := v.MC.GetBlsShare(context.Background(), mr.Round)
+			if err != nil || own != w.DKGs[vw.Self].Sign(msg).GetHexString() {
+				o.fail("own-share-not-dkg-signature", fmt.Sprintf("GetBlsShare of miner %d: %v", vw.Self, err))
+			}
+			gsig := w.GSK.Sign(msg)
+			expSeed := seedOf(gsig.GetHexString())
+
+			validSeen := map[int]bool{} // miners whose valid share (right tc) has arrived
+			var coqEvs, coqOks []string
+			var accOrder []int
+			for ei, e := range evs {
+				var party *node.Node
+				var signer int
+				if e.Miner >= 0 {
+					party = w.Miners[e.Miner].Node
+					signer = e.Miner
+				} else {
+					party = stranger(s.WorldSeed).Node
+					signer = 0
+				}
+				var share string
+				dlog := "None"
+				isValid := false
+				switch e.Kind {
+				case "valid":
+					share = w.DKGs[signer].Sign(msg).GetHexString()
+					dlog = "(Some " + zx(w.DKGs[signer].Si.GetHexString()) + ")"
+					isValid = e.Miner >= 0
+				case "othermsg":
+					share = w.DKGs[signer].Sign(otherMsg).GetHexString()
+				case "otherkey":
+					o2 := (signer + 1) % s.N
+					share = w.DKGs[o2].Sign(msg).GetHexString()
+					dlog = "(Some " + zx(w.DKGs[o2].Si.GetHexString()) + ")"
+					isValid = e.Miner >= 0 && w.DKGs[o2].Si.IsEqual(&w.DKGs[signer].Si)
+				case "garbage":
+					share = "zz not hex"
+				case "zero":
+					share = "0"
+					dlog = "(Some 0x0)"
+				case "sum":
+					o2 := (signer + 1) % s.N
+					sg := w.DKGs[signer].Sign(msg)
+					sg.Add(w.DKGs[o2].Sign(msg))
+					share = sg.GetHexString()
+					var k bls.Key
+					k = w.DKGs[signer].Si
+					k.Add(&w.DKGs[o2].Si)
+					dlog = "(Some " + zx(k.GetHexString()) + ")"
+					isValid = false
+				}
+				vrfs := &round.VRFShare{Round: rn, Share: share, RoundTimeoutCount: curTC + e.TC}
+				vrfs.SetParty(party)
+				before := len(mr.GetVRFShares())
+				ok := v.MC.AddVRFShare(context.Background(), mr, vrfs)
+				o.hist[fmt.Sprintf("add-%s-%v", e.Kind, ok)]++
+				tcOK := e.TC == 0
+				if isValid && tcOK && e.Miner >= 0 {
+					validSeen[e.Miner] = true
+				}
+				if ok {
+					accOrder = append(accOrder, e.Miner)
+					if !isValid || !tcOK {
+						o.fail("invalid-share-counted", fmt.Sprintf("view %d event %d (%+v) was admitted", vi, ei, e))
 					}
 				}
-				if idx < 0 || sh.Share != w.DKGs[idx].Sign(msg).GetHexString() {
-					o.fail("invalid-share-counted", fmt.Sprintf("view %d holds a share under key %s that is not that miner's signature on the round message", vi, key))
+				// state oracle after every step
+				shares := mr.GetVRFShares()
+				if len(shares) > s.T {
+					o.hist["more-than-t-shares"]++ // not part of the property; the model comparison reports it
+				}
+				if ok != (len(shares) == before+1) {
+					o.fail("add-result-inconsistent", fmt.Sprintf("view %d event %d: result %v, shares %d -> %d", vi, ei, ok, before, len(shares)))
+				}
+				for key, sh := range shares {
+					idx := -1
+					for i, m := range w.Miners {
+						if m.ID == key {
+							idx = i
+						}
+					}
+					if idx < 0 || sh.Share != w.DKGs[idx].Sign(msg).GetHexString() {
+						o.fail("invalid-share-counted", fmt.Sprintf("view %d holds a share under key %s that is not that miner's signature on the round message", vi, key))
+					}
+				}
+				if mr.HasRandomSeed() && len(validSeen) < s.T {
+					o.fail("seed-below-t", fmt.Sprintf("view %d has a seed after %d valid shares, t=%d", vi, len(validSeen), s.T))
+				}
+				coqEvs = append(coqEvs, fmt.Sprintf("(Build_vzc_ev %s %s %s)", vh.Bool(tcOK), zx(partyHex(party.ID)), dlog))
+				coqOks = append(coqOks, vh.Bool(ok))
+			}
+			// end of stream
+			complete := mr.IsVRFComplete()
+			o.hist[fmt.Sprintf("view-complete-%v", complete)]++
+			seedTerm := "None"
+			var hints string = "[]"
+			if len(validSeen) >= s.T && !complete {
+				o.fail("no-seed-at-threshold", fmt.Sprintf("view %d received %d valid shares (t=%d) and has no seed", vi, len(validSeen), s.T))
+			}
+			if complete {
+				got := mr.GetRandomSeed()
+				if prev, ok := seedByMsg[msg]; ok && prev != got {
+					o.fail("seed-disagreement", fmt.Sprintf("two views derived different seeds %d and %d for the message %q", prev, got, msg))
+				}
+				seedByMsg[msg] = got
+				if got != expSeed {
+					o.fail("seed-disagreement", fmt.Sprintf("view %d derived seed %d, the group signature gives %d", vi, got, expSeed))
+				}
+				if mr.GetVRFOutput() != encryption.Hash(gsig.GetHexString()) {
+					o.fail("seed-disagreement", fmt.Sprintf("view %d VRF output is not the hash of the group signature", vi))
+				}
+				// witness for the model: scalar recovery over the admitted miners
+				var sks []bls.Key
+				var idv []bls.PartyID
+				var idh []string
+				for _, mi := range accOrder {
+					if mi >= 0 {
+						sks = append(sks, w.DKGs[mi].Si)
+						idv = append(idv, w.IDs[mi])
+						idh = append(idh, w.IDs[mi].GetHexString())
+					}
+				}
+				var wk bls.Key
+				if len(sks) > 0 && wk.Recover(sks, idv) == nil && encryption.Hash(wk.Sign(msg).GetHexString()) == mr.GetVRFOutput() {
+					seedTerm = "(Some " + zx(wk.GetHexString()) + ")"
+					hints = lagrangeHints(idh)
+				} else {
+					seedTerm = "(Some 0x0)" // a seed that is not explained by the admitted shares
+					o.fail("seed-not-from-admitted-shares", fmt.Sprintf("view %d", vi))
 				}
 			}
-			if mr.HasRandomSeed() && len(validSeen) < s.T {
-				o.fail("seed-below-t", fmt.Sprintf("view %d has a seed after %d valid shares, t=%d", vi, len(validSeen), s.T))
+			var mem []string
+			for i := range w.Miners {
+				mem = append(mem, "("+zx(w.IDs[i].GetHexString())+", "+zx(w.DKGs[i].Si.GetHexString())+")")
 			}
-			coqEvs = append(coqEvs, fmt.Sprintf("(Build_vzc_ev %s %s %s)", vh.Bool(tcOK), zx(partyHex(party.ID)), dlog))
-			coqOks = append(coqOks, vh.Bool(ok))
-		}
-		// end of stream
-		complete := mr.IsVRFComplete()
-		o.hist[fmt.Sprintf("view-complete-%v", complete)]++
-		seedTerm := "None"
-		var hints string = "[]"
-		if len(validSeen) >= s.T && !complete {
-			o.fail("no-seed-at-threshold", fmt.Sprintf("view %d received %d valid shares (t=%d) and has no seed", vi, len(validSeen), s.T))
-		}
-		if complete {
-			got := mr.GetRandomSeed()
-			o.seeds = append(o.seeds, got)
-			if got != expSeed {
-				o.fail("seed-disagreement", fmt.Sprintf("view %d derived seed %d, the group signature gives %d", vi, got, expSeed))
+			var adm []string
+			for key := range mr.GetVRFShares() {
+				adm = append(adm, zx(partyHex(key)))
 			}
-			if mr.GetVRFOutput() != encryption.Hash(gsig.GetHexString()) {
-				o.fail("seed-disagreement", fmt.Sprintf("view %d VRF output is not the hash of the group signature", vi))
-			}
-			// witness for the model: scalar recovery over the admitted miners
-			var sks []bls.Key
-			var idv []bls.PartyID
-			var idh []string
-			for _, mi := range accOrder {
-				if mi >= 0 {
-					sks = append(sks, w.DKGs[mi].Si)
-					idv = append(idv, w.IDs[mi])
-					idh = append(idh, w.IDs[mi].GetHexString())
-				}
-			}
-			var wk bls.Key
-			if len(sks) > 0 && wk.Recover(sks, idv) == nil && encryption.Hash(wk.Sign(msg).GetHexString()) == mr.GetVRFOutput() {
-				seedTerm = "(Some " + zx(wk.GetHexString()) + ")"
-				hints = lagrangeHints(idh)
-			} else {
-				seedTerm = "(Some 0x0)" // a seed that is not explained by the admitted shares
-				o.fail("seed-not-from-admitted-shares", fmt.Sprintf("view %d", vi))
-			}
+			sort.Strings(adm)
+			o.coq = append(o.coq, fmt.Sprintf("(Build_vzc_case (%s) (%s) (%s) (%s) (%s) (%s) (%s) (%s) (%s) (%s) (%s) (%s))",
+				vh.Nat(s.T), vh.Z(rn), vh.Z(int64(curTC)), vh.Z(s.PrevSeed), vh.Str(msg), vh.List(mem), zx(w.GSK.GetHexString()),
+				vh.List(coqEvs), vh.List(coqOks), vh.List(adm), hints, seedTerm))
 		}
-		var mem []string
-		for i := range w.Miners {
-			mem = append(mem, "("+zx(w.IDs[i].GetHexString())+", "+zx(w.DKGs[i].Si.GetHexString())+")")
-		}
-		var adm []string
-		for key := range mr.GetVRFShares() {
-			adm = append(adm, zx(partyHex(key)))
-		}
-		sort.Strings(adm)
-		o.coq = append(o.coq, fmt.Sprintf("(Build_vzc_case (%s) (%s) (%s) (%s) (%s) (%s) (%s) (%s) (%s) (%s) (%s) (%s))",
-			vh.Nat(s.T), vh.Z(rn), vh.Z(int64(s.Timeout)), vh.Z(s.PrevSeed), vh.Str(msg), vh.List(mem), zx(w.GSK.GetHexString()),
-			vh.List(coqEvs), vh.List(coqOks), vh.List(adm), hints, seedTerm))
 		v.Close()
-	}
-	for i := 1; i < len(o.seeds); i++ {
-		if o.seeds[i] != o.seeds[0] {
-			o.fail("seed-disagreement", fmt.Sprintf("two views derived different seeds %d and %d", o.seeds[0], o.seeds[i]))
-		}
 	}
 	return o
 }
@@ -332,8 +346,8 @@ func run1(s scen) *outcome {
 
 var badKinds = []string{"othermsg", "otherkey", "garbage", "zero", "sum"}
 
-func genView(r *vh.Rand, t, n, timeout int) view {
-	v := view{Self: r.Intn(n)}
+func genPhase(r *vh.Rand, t, n int) []ev {
+	var v view
 	mode := r.Intn(5)
 	perm := r.Perm(n)
 	k := n
@@ -349,24 +363,54 @@ func genView(r *vh.Rand, t, n, timeout int) view {
 	for _, mi := range perm[:k] {
 		// invalid noise before / instead / after the valid share of this miner
 		if r.Chance(1, 3) {
-			v.Evs = append(v.Evs, ev{mi, badKinds[r.Intn(len(badKinds))], timeout})
+			v.Evs = append(v.Evs, ev{mi, badKinds[r.Intn(len(badKinds))], 0})
 		}
 		if r.Chance(1, 8) {
-			v.Evs = append(v.Evs, ev{mi, "valid", timeout + 1 + r.Intn(2)}) // share of a later timeout
+			v.Evs = append(v.Evs, ev{mi, "valid", 1 + r.Intn(2)}) // share of a later timeout
 		}
-		v.Evs = append(v.Evs, ev{mi, "valid", timeout})
+		v.Evs = append(v.Evs, ev{mi, "valid", 0})
 		if r.Chance(1, 5) {
-			v.Evs = append(v.Evs, ev{mi, "valid", timeout}) // duplicate
+			v.Evs = append(v.Evs, ev{mi, "valid", 0}) // duplicate
 		}
 		if r.Chance(1, 6) {
-			v.Evs = append(v.Evs, ev{-1, []string{"valid", "zero", "garbage"}[r.Intn(3)], timeout})
+			v.Evs = append(v.Evs, ev{-1, []string{"valid", "zero", "garbage"}[r.Intn(3)], 0})
 		}
 	}
 	if mode == 1 {
 		// pad with invalid shares up to and beyond t events
 		for i := 0; i < t+2; i++ {
-			v.Evs = append(v.Evs, ev{perm[r.Intn(n)], badKinds[r.Intn(len(badKinds))], timeout})
+			v.Evs = append(v.Evs, ev{perm[r.Intn(n)], badKinds[r.Intn(len(badKinds))], 0})
 		}
+	}
+	return v.Evs
+}
+
+// stalePhase: fewer than t valid shares (the round then times out and restarts).
+func stalePhase(r *vh.Rand, t, n int) []ev {
+	var evs []ev
+	for _, mi := range r.Perm(n)[:r.Intn(t)] {
+		evs = append(evs, ev{mi, "valid", 0})
+		if r.Chance(1, 4) {
+			evs = append(evs, ev{mi, badKinds[r.Intn(len(badKinds))], 0})
+		}
+	}
+	return evs
+}
+
+func genView(r *vh.Rand, t, n int) view {
+	v := view{Self: r.Intn(n)}
+	switch r.Intn(3) {
+	case 0: // no restart
+		v.Evs = genPhase(r, t, n)
+	case 1: // one or two timeouts with stale shares, then a normal phase
+		v.Evs = stalePhase(r, t, n)
+		if r.Chance(1, 3) {
+			v.More = append(v.More, stalePhase(r, t, n))
+		}
+		v.More = append(v.More, genPhase(r, t, n))
+	default: // restart after any phase (possibly after the VRF completed)
+		v.Evs = genPhase(r, t, n)
+		v.More = append(v.More, genPhase(r, t, n))
 	}
 	return v
 }
@@ -393,7 +437,7 @@ func gen(r *vh.Rand, t, n int, wseed uint64) scen {
 	}
 	nv := r.Range(2, 3)
 	for i := 0; i < nv; i++ {
-		s.Views = append(s.Views, genView(r, t, n, s.Timeout))
+		s.Views = append(s.Views, genView(r, t, n))
 	}
 	return s
 }
@@ -402,7 +446,7 @@ func key(s scen) string {
 	var b strings.Builder
 	fmt.Fprintf(&b, "%d|%d|%d|%d|%d|%d", s.T, s.N, s.WorldSeed, s.Round, s.Timeout, s.PrevSeed)
 	for _, v := range s.Views {
-		fmt.Fprintf(&b, "|%d:%v", v.Self, v.Evs)
+		fmt.Fprintf(&b, "|%d:%v:%v", v.Self, v.Evs, v.More)
 	}
 	return b.String()
 }
@@ -460,25 +504,48 @@ func main() {
 			}
 			min.Views = vs
 			for vi := range min.Views {
-				evs := min.Views[vi].Evs
-				keepE := vh.ShrinkIdx(len(evs), func(keep []int) bool {
+				// drop later phases from the end, then events of every phase
+				for len(min.Views[vi].More) > 0 {
 					s2 := min
 					s2.Views = append([]view{}, min.Views...)
-					var es []ev
-					for _, i := range keep {
-						es = append(es, evs[i])
+					vv := min.Views[vi]
+					vv.More = vv.More[:len(vv.More)-1]
+					s2.Views[vi] = vv
+					if _, bad := run(s2).descs[k]; !bad {
+						break
 					}
-					s2.Views[vi] = view{Self: min.Views[vi].Self, Evs: es}
-					_, bad := run(s2).descs[k]
-					return bad
-				})
-				var es []ev
-				for _, i := range keepE {
-					es = append(es, evs[i])
+					min = s2
 				}
-				nv := append([]view{}, min.Views...)
-				nv[vi] = view{Self: min.Views[vi].Self, Evs: es}
-				min.Views = nv
+				for ph := 0; ph <= len(min.Views[vi].More); ph++ {
+					get := func(vv *view) *[]ev {
+						if ph == 0 {
+							return &vv.Evs
+						}
+						return &vv.More[ph-1]
+					}
+					base := min.Views[vi]
+					evs := append([]ev{}, *get(&base)...)
+					mk := func(keep []int) scen {
+						s2 := min
+						s2.Views = append([]view{}, min.Views...)
+						vv := view{Self: base.Self, Evs: append([]ev{}, base.Evs...)}
+						for _, m := range base.More {
+							vv.More = append(vv.More, append([]ev{}, m...))
+						}
+						var es []ev
+						for _, i := range keep {
+							es = append(es, evs[i])
+						}
+						*get(&vv) = es
+						s2.Views[vi] = vv
+						return s2
+					}
+					keepE := vh.ShrinkIdx(len(evs), func(keep []int) bool {
+						_, bad := run(mk(keep)).descs[k]
+						return bad
+					})
+					min = mk(keepE)
+				}
 			}
 			desc := out.descs[k]
 			if d2, ok := run(min).descs[k]; ok {
